@@ -91,8 +91,10 @@ func (dm *DecisionMaker) MakeDecision(
 	dm.validateAlternatives()
 	preferenceFunction := preferenceFunctions.Fetch(dm.PreferenceFunction)
 	params := dm.prepareParams(preferenceFunction)
+	verifStep(VerifEvent{Kind: "parsed", DM: dm, Original: params, After: params})
 	chosenBiases := ChooseBiases(availableBiases, &dm.Biases)
 	processedParams, biasesProps := dm.processBiases(chosenBiases, params, &biasListeners, biasApplyProbGenerator)
+	verifStep(VerifEvent{Kind: "evaluate", DM: dm, Original: params, After: processedParams})
 	res := (*preferenceFunction).Evaluate(processedParams)
 	return &DecisionMakerChoice{*res, *biasesProps}
 }
@@ -142,14 +144,17 @@ func (dm *DecisionMaker) processBiases(
 	listener := listeners.Fetch(dm.PreferenceFunction)
 	generator := biasApplyProbGenerator(dm.BiasApplyRandomSeed)
 	for i, h := range *biases {
+		before, fired := current, false
 		// check for >=1 omitted to keep results independence when other changes
 		if h.Props.ApplyProbability > generator() {
+			fired = true
 			res := (*h.Bias).Apply(params, current, &h.Props.Props, listener)
 			current = res.DMP
 			result[i] = *UpdateBiasesProps(h.Props, res.Props)
 		} else {
 			result[i] = *UpdateBiasesProps(h.Props, nil)
 		}
+		verifStep(VerifEvent{Kind: "bias", Index: i, Fired: fired, DM: dm, Original: params, Before: before, After: current, Report: result[i]})
 	}
 	return current, &result
 }
